@@ -5,6 +5,7 @@ pub mod c01;
 pub mod c02;
 pub mod c04;
 pub mod c11;
+pub mod c13;
 pub mod c20;
 pub mod c21;
 pub mod c22;
@@ -28,6 +29,7 @@ pub fn run(id: &str, run: &mut Run) {
         "C02" => c02::run(run),
         "C04" => c04::run(run),
         "C11" => c11::run(run),
+        "C13" => c13::run(run),
         "C20" => c20::run(run),
         "C21" => c21::run(run),
         "C22" => c22::run(run),
@@ -54,6 +56,7 @@ pub fn replay(id: &str, case: &Value, run: &mut Run) {
         "C02" => c02::replay(case, run),
         "C04" => c04::replay(case, run),
         "C11" => c11::replay(case, run),
+        "C13" => c13::replay(case, run),
         "C20" => c20::replay(case, run),
         "C21" => c21::replay(case, run),
         "C22" => c22::replay(case, run),
@@ -78,6 +81,7 @@ pub fn child(id: &str, args: &[String]) {
     match id {
         "C01" => c01::child(args),
         "C11" => c11::child(args),
+        "C13" => c13::child(args),
         "C04" => c04::child(args),
         "C02" => c02::child(args),
         "C30" => c30::child(args),
